@@ -5,10 +5,37 @@
     (sr_ring = commutative semiring laws); instances for [bool_ops] at the end. *)
 From Coq Require Import List Arith Bool PeanoNat.
 Import ListNotations.
-Require Import Fggs.Model.Semiring Fggs.Model.SCC Fggs.Model.SumProduct.
+Require Import Fggs.Model.Semiring Fggs.Model.SCC Fggs.Model.SumProduct Fggs.Model.SumProductCheck.
 Require Import Fggs.Proofs.BigSum Fggs.Proofs.SP_trees Fggs.Proofs.SP_nonrec Fggs.Proofs.SP_code
                Fggs.Proofs.SP_rename Fggs.Proofs.SP_spe Fggs.Proofs.SP_driver Fggs.Proofs.SP_main
-               Fggs.Proofs.SP_corollaries Fggs.Proofs.SP_examples.
+               Fggs.Proofs.SP_corollaries Fggs.Proofs.SP_examples Fggs.Proofs.SP_check_sound.
+
+(** * 0. The oracle of the correspondence check is sound *)
+(** verdict 0 of [sp_check] (any carrier, any tolerance predicate [within]): the grammar is
+    well-formed and every observed cell of every nonterminal is accepted by [within] against the
+    Kleene iterate number #nonterminals (by section 3: the sum over all derivation trees) *)
+Theorem C01_check_oracle_sound :
+  forall R W B (o : sr_ops R) (of_wire : W -> R) (within : R -> B -> bool) (eqb : R -> R -> bool) gw ws obs,
+  sp_check o of_wire within eqb (gw, ws, obs) = 0 ->
+  let G := grammar_of_w gw in
+  let Wt := env_of o (weights_tmt of_wire G ws) in
+  wf_grammar G = true
+  /\ forall X, is_term G X = false ->
+       exists ob, obs_get obs X = Some ob
+                  /\ Forall2 (fun xi b => within (Zk o G Wt (length (nonterminals G)) X xi) b = true)
+                             (all_assts (lshape G X)) ob.
+Proof. exact (fun R W B => @sp_check_sound R W B). Qed.
+Print Assumptions C01_check_oracle_sound.
+
+Theorem C01_bool_check_oracle_sound :
+  forall gw ws obs, sp_check_bool (gw, ws, obs) = 0 ->
+  let G := grammar_of_w gw in
+  forall X, is_term G X = false ->
+    exists ob, obs_get obs X = Some ob
+               /\ ob = map (Zk bool_ops G (env_of bool_ops (weights_tmt (fun b : bool => b) G ws)) (length (nonterminals G)) X)
+                           (all_assts (lshape G X)).
+Proof. exact sp_check_bool_sound. Qed.
+Print Assumptions C01_bool_check_oracle_sound.
 
 (** * 1. Finite sums and products *)
 (** product of sums = sum, over all choice functions, of the products *)
